@@ -311,6 +311,8 @@ C10_CASES = [("2^-2^2", "0.0625"), ("2^3^2", "512"), ("-2^2", "-4"), ("2^-2", "0
              ("sqrt(16)", "4"), ("mod(7, 3,)", "1"), ("mod(\n7,\n3\n)", "1"), ("len([1, 2, 3])", "3"), ("[1, 2, 3,]", "[1, 2, 3]"), ("[true false]", "ERR"), ("(2 + 3", "ERR"),
              ("sqrt(16]", "ERR"), ("mod(7; 3)", "ERR"), ("head([4, 5])", "4"), ("[1, 2\n,3]", "[1, 2, 3]"), ("struct P { x: Scalar }\nP { x: 3 }.x", "3"), ("[]", "[]"), ("[\n]", "[]"),
              ("mod(true false)", "ERR"), ("(2 + 3] 2", "ERR"), ("sqrt(16) 2", "8"), ("[[1, 2], [3]]", "[[1, 2], [3]]"), ("element_at(1, [4, 5])", "5"), ("[1,, 2]", "ERR"), ("mod(7,, 3)", "ERR"), ("2(3 + 4)", "ERR"), ("12 / 2(3)", "ERR"),
+             # equality and ordering operators share ONE non-associative-looking level that is left-associative: `true == 1 < 2` is `(true == 1) < 2`, ill-typed
+             ("true == 1 < 2", "ERR"), ("1 < 2 == true", "true"), ("false != 2 > 3", "ERR"), ("1 < 2 != false", "true"),
              # Unicode operator spellings written WITHOUT spaces after an identifier: the operator character ends the identifier
              ("pi≤4", "true"), ("pi≥4", "false"), ("pi≠3", "true"), ("pi−pi", "0"), ("1 m→cm", "100 cm"), ("1 m➞cm", "100 cm"), ("e⩵e", "true"), ("pi×2÷pi", "2"), ("pi·2", "6.28319"),
              ("struct P { x: Scalar }\nP { x: 3 }:x", "ERR")]
